@@ -180,6 +180,14 @@ def sx(schema):
         yield model("duplicate-enum-value", "definition", with_type(schema, replace(e, values=e.values + (e.values[0],))))
         yield raw("duplicate-enum-value", "definition+extend", "extend enum %s { %s }" % (e.name, e.values[0].name))
         yield raw("duplicate-enum-value", "inside-one-extend", "extend enum %s { ZZ ZZ }" % e.name)
+        # the repeated value differs from the first one by its decorations only (a description, a directive): still the same name
+        dep = (DirUse("deprecated", (("reason", doc.StrV("old")),)),)
+        yield model("duplicate-enum-value", "definition-second-deprecated", with_type(schema, replace(e, values=e.values + (replace(e.values[0], dirs=dep),))))
+        yield model("duplicate-enum-value", "definition-first-deprecated",
+                    with_type(schema, replace(e, values=(replace(e.values[0], dirs=dep),) + e.values[1:] + (replace(e.values[0], dirs=()),))))
+        yield model("duplicate-enum-value", "definition-second-described", with_type(schema, replace(e, values=e.values + (replace(e.values[0], desc="again"),))))
+        yield raw("duplicate-enum-value", "definition+extend-deprecated", "extend enum %s { %s @deprecated }" % (e.name, e.values[0].name))
+        yield raw("duplicate-enum-value", "inside-one-extend-described", 'extend enum %s { ZZ "doc" ZZ }' % e.name)
     # duplicates
     yield model("duplicate-type", "same-kind", replace(schema, types=schema.types + (o,)))
     yield model("duplicate-type", "other-kind", schema.add_type(TypeDef("ENUM", o.name, values=(EnumVal("X"),))))
